@@ -78,6 +78,67 @@ def run(rep, tier, seed, replay):
                 rep.stats["witness-not-confirmed"] += 1
         else:
             rep.stats["dfa-" + line.split()[0]] += 1
+    # ---- long strings, up to the invariant size limit (`escape_check_iff`: the escaped string of a non-empty
+    # backslash-free string builds iff it has no `//` and its UTF-8 length is below MAX_INVARIANT_SIZE)
+    if replay is None or replay["input"].get("long"):
+        limit = 0x10000      # MAX_INVARIANT_SIZE of the pinned tree (the table obligation `constants_are_source` watches the source)
+        r = random.Random(seed * 7 + 18)
+        fam = [("a", limit // 2 - 5), ("a", limit // 2 + 300), ("a", limit - 1), ("a", limit), ("a", limit + 4000),
+               ("[01](L)*?,", (limit // 2 + 3000) // 10), ("ab/", (limit - 10) // 3), ("左{}右*中*", (limit - 200) // 15),
+               ("é/", limit // 3 - 1), ("é/", limit // 3 + 1)]
+        for _ in range(4 if tier == "quick" else 40):
+            unit = "".join(r.choice(ALPHA) for _ in range(r.randint(1, 6))).replace("//", "/").strip("/") or "a"
+            if "\\" in unit:
+                continue
+            fam.append((unit, r.randint(limit // 3, limit + limit // 8) // max(1, len(unit.encode()))))
+        if replay is not None:
+            fam = [(replay["input"]["unit"], replay["input"]["repeat"])]
+        longs = []
+        for unit, n in fam:
+            t = unit * n
+            if "//" in t or "\\" in t:
+                continue
+            longs.append((unit, n, t))
+        el = h.ask(["E " + hexs(t) for _u, _n, t in longs])
+        escl = [unhex(dict(x.split("=", 1) for x in a.split())["escaped"]) for a in el]
+        bi = h.ask(["B " + hexs(e) for e in escl], timeout=300)
+        small = [k for k, (_u, _n, t) in enumerate(longs) if len(t) <= 45000][:2 if tier == "quick" else 12]
+        bm = dict(zip(small, m.ask(["B " + hexs(escl[k]) for k in small], timeout=600)))
+        rep.evaluations += len(longs)
+        for k, ((unit, n, t), line) in enumerate(zip(longs, bi)):
+            size = len(t.encode())
+            inp = {"long": True, "unit": unit, "repeat": n, "bytes": size}
+            d = lib.parse_impl_build(line)
+            rep.stats["long:%s" % ("below-limit" if size < limit else "at-or-above-limit")] += 1
+            rep.distinct.add("long:%s*%d" % (unit, n))
+            if k in bm:
+                mo = lib.parse_model_build(bm[k])
+                rep.traces += 1
+                if not (mo["ok"] == d["ok"] and (not d["ok"] or (mo["tokens"] == d["tokens"] and mo["pattern"] == d["pattern"]))):
+                    rep.stats["correspondence-broken"] += 1
+                    rep.violation("correspondence", "parse/encode of a long escaped string: text equality", inp, impl=line[:200], model=bm[k][:200])
+            if size < limit and not d["ok"]:
+                rep.violation("oracle", "escape_builds: a string of %d bytes (below the invariant size limit %d) is escaped into text that does not build" % (size, limit), inp, impl=line[:200])
+                continue
+            if size >= limit:
+                if d["ok"]:
+                    rep.violation("oracle", "escape_rejects_oversized: a literal of %d bytes builds although the limit is %d" % (size, limit), inp, impl=line[:80])
+                else:
+                    rep.stats["long:rejected-as-oversized" if "oversized" in line or "size" in line else "long:rejected:" + d.get("err", "?")] += 1
+                continue
+            if d.get("text") != "inv:" + hexs(t):
+                rep.violation("oracle", "the long escaped string's text is not invariant and equal to the string", inp, impl=(d.get("text") or "")[:80])
+                continue
+            mid = len(t) // 2
+            other = t[:mid] + ("b" if t[mid] != "b" else "c") + t[mid + 1:]
+            probes = [t, t[:-1], t + "a", other]
+            ans = h.ask(["M %s %s" % (hexs(escl[k]), hexs(q)) for q in probes], timeout=300)
+            got = [a.startswith("match") for a in ans]
+            if got != [True, False, False, False]:
+                rep.violation("oracle", "escape_matches_exactly (long string): matches of [the string, one character less, one more, one changed] = %s" % got, inp, impl=str(got))
+            else:
+                rep.stats["long:builds-and-matches-exactly (string, 3 near misses)"] += 1
+                rep.sample({"string": "%r * %d (%d bytes)" % (unit, n, size), "verdict": "builds; text invariant; matches the string and none of 3 near misses"})
     # every character the parser treats as a meta-character is reported as such: each character of the
     # literal stop set (except the separator and the backslash), alone, must not parse as a literal
     lib.replay_findings(rep, "C18", lambda w: (False, ""))
